@@ -6,7 +6,7 @@ The index formulas (`stateIndex`, `cellIndexArr`, …) and the constants of the 
 sources on every run (`Gen.IndexPy`, `Gen.SystemPy`).
 -/
 import Strengths.Proofs.SystemState
-import Strengths.Props.C15
+import Strengths.Proofs.Grid
 
 namespace Strengths.C13
 open Strengths Strengths.Gen Strengths.RDS
@@ -261,16 +261,22 @@ theorem set_state_rejects {s : System} {sp : SpRef} {pos : Pos} {value : QIn} {e
     (∀ v, s.setChem sp pos v = .error e) ∧ s.getChem sp pos = .error e := by
   simp [System.setState, System.getState, System.setChem, System.getChem, hk]
 
-/-- a grid position outside the grid, or a graph index outside the graph, has no entry index -/
-theorem state_index_rejects_outside (s : System) (sp : SpRef) (pos : Pos) (g : GridShape) (v : UVal) (e : List Int) (u : Sys)
-    (hs : s.space = .grid g v e u) (hout : ¬ C15.namesCell g pos) : (s.stateIndex sp pos).isError = true := by
-  have := (C15.bounds_reject g pos).2 hout
-  unfold System.stateIndex
-  rw [hs]
-  simp only [Space.cellIndex]
-  cases h : pyCellIndex g pos with
-  | error e => simp [Res.isError]
-  | ok c => rw [h] at this; simp [Res.isError] at this
+/-- a grid position rejected by `is_within_bounds` (C15: exactly the positions that name no cell), or a graph
+index outside `[0, size)`, has no entry index — so nothing is read or written (`set_state_rejects`) -/
+theorem state_index_rejects_outside (s : System) (sp : SpRef) (pos : Pos) :
+    (∀ g v e u, s.space = .grid g v e u → pyWithinBounds g pos = false → (s.stateIndex sp pos).isError = true) ∧
+    (∀ nodes u p, s.space = .graph nodes u → pos = .num p → ¬ (0 ≤ p ∧ p < nodes.length) →
+      (s.stateIndex sp pos).isError = true) := by
+  constructor
+  · intro g v e u hs hout
+    have hg : cellIndexGuarded = true := by decide
+    unfold System.stateIndex
+    simp [hs, Space.cellIndex, pyCellIndex, hg, hout, Res.isError]
+  · intro nodes u p hs hp hout
+    unfold System.stateIndex
+    have : graphIndexBad nodes.length p = true := by
+      simp only [graphIndexBad, Bool.or_eq_true, decide_eq_true_eq]; omega
+    simp [hs, hp, Space.cellIndex, graphCellIndex, this, Res.isError]
 
 /-! ## regenerating the defaults reflects the current species -/
 
